@@ -30,6 +30,7 @@ and is not part of the sequential run.
 import Pithos.Util.Proto
 import Pithos.Util.S3Driver
 import Pithos.Model.OutboxStorageS3
+import Pithos.Model.Outbox
 open Pithos Pithos.Proto Pithos.S3 Pithos.S3Driver Pithos.OutboxStorage
 
 namespace C21Driver
@@ -59,7 +60,172 @@ structure Cur where
   waits : List String := []
   thru : Option S3.Out := none   -- model result computed when the caller reached the inner storage
 
+
+/- Lease mode (`cfg mode=lease lease=<L>`): two outbox storage instances on one table, slow replays,
+heartbeats, a clock (harness/cmd/verifharness/c21_lease.go). Lines besides op/queued/res/dump:
+  claim <w> none|busy|ok <n> <version> | replay <w> <n> <Method> <bucket> <key> ok|err
+  fin <w> deleted|skipped | rel <w> released|noop | ext <w> ok|lost | tick <d>
+TIE: the lease protocol is `Pithos.Outbox.step false` (the model of C18: claim / extend / finalize /
+release / tick over a table of entries); every step result is compared, each replay applies the
+entry's operation to the S3 model of the inner storage, the dump is compared with that state.
+JUDGE: the sequential S3 run of the accepted operations; as long as every lease was renewed in time
+by its holder (checked on the trace: `claim ok` / `ext ok` at time t keep the lease until t + L) the
+inner storage read at the end must answer like the sequential run (`C21.drained-state-differs`). -/
+def judgeLease (lines : List String) : Verdict := Id.run do
+  let lease := match lines.head?.map tokens with
+    | some ("cfg" :: rest) => (kvOf rest "lease").toNat!
+    | _ => 10
+  let mut ls : Pithos.Outbox.St := Pithos.Outbox.init lease
+  let mut entryOps : List COp := []
+  let mut inner : S3.State := {}
+  let mut ctx : Ctx := {}
+  let mut seq : S3.State := {}
+  let mut jctx : Ctx := {}
+  let mut cur : Option Cur := none
+  let mut div : List String := []
+  let mut vio : List (String × String) := []
+  let mut idx := 0
+  let mut dumping := false
+  -- judge's own bookkeeping of leases: worker ↦ time of its last acknowledged claim / heartbeat
+  let mut now := 0
+  let mut renewed : List (Nat × Nat) := []
+  let mut lapsed := false
+  let mut nSteps := 0
+  let mut nExt := 0
+  let mut nBusy := 0
+  let mut nTakeover := 0
+  let mut nReplay := 0
+  let mut nQueued := 0
+  let mut nDump := 0
+  let mut elapsed := 0
+  for l in lines do
+    let t := tokens l
+    let stepCmp (st : Pithos.Outbox.Step) (expect : Pithos.Outbox.Out → Bool) (ls : Pithos.Outbox.St) :
+        Pithos.Outbox.St × Option String :=
+      let (ls', o) := Pithos.Outbox.step false ls st
+      (ls', if expect o then none else some s!"line{idx}:impl=[{l}],model={reprStr o}")
+    match t with
+    | "cfg" :: _ => pure ()
+    | "op" :: _ =>
+      match parseOp ctx l with
+      | none => div := div ++ [s!"line{idx}:unparsable:{l}"]; cur := none
+      | some op => cur := some { op := op, line := l }
+    | "queued" :: _ =>
+      if let some c := cur then cur := some { c with queued := c.queued + 1 }
+      nQueued := nQueued + 1
+    | "res" :: _ =>
+      match cur with
+      | none => div := div ++ [s!"line{idx}:res-without-op"]
+      | some c =>
+        if dumping then
+          nDump := nDump + 1
+          let r := S3.step Quirks.code inner c.op
+          inner := r.1
+          let (ctx', ms) := compareOut ctx r.2 l
+          ctx := ctx'
+          if !ms.isEmpty && div.length < 6 then div := div ++ [s!"line{idx}:dump[{(tokens c.line).getD 1 "?"}]:" ++ String.intercalate ";" ms]
+          let jr := S3.step Quirks.code seq c.op
+          seq := jr.1
+          let (jctx', jms) := compareOut jctx jr.2 l
+          jctx := jctx'
+          if !jms.isEmpty && !lapsed then
+            vio := vio ++ [("C21.drained-state-differs",
+              s!"line{idx}:two-workers-heartbeats-on-time:{String.intercalate " " ((tokens c.line).take 4)}:" ++ String.intercalate ";" (jms.take 3))]
+        else if c.queued > 0 && l.startsWith "res ok" then
+          -- accepted and queued: one table row, in acceptance order
+          ls := (Pithos.Outbox.step false ls (.commit [.del entryOps.length])).1
+          entryOps := entryOps ++ [ok c.op]
+          seq := (S3.step Quirks.code seq c.op).1
+          match c.op with
+          | .put _ _ body .. =>
+            let (c1, _) := bindEtag ctx (singleETag body) (kvOf t "etag")
+            ctx := c1
+            let (j1, _) := bindEtag jctx (singleETag body) (kvOf t "etag")
+            jctx := j1
+          | _ => pure ()
+        else
+          div := div ++ [s!"line{idx}:lease-mode-operation-not-queued:{c.line}:{l}"]
+        cur := none
+    | "claim" :: w :: rest =>
+      let w := w.toNat!
+      let (ls', d) := stepCmp (.claim w) (fun o => match rest, o with
+        | ["none"], .claimNone => true
+        | ["busy"], .claimBusy => true
+        | ["ok", e, v], .claimed e' v' => e.toNat! == e' && v.toNat! == v'
+        | _, _ => false) ls
+      ls := ls'
+      if let some m := d then div := div ++ [m]
+      match rest with
+      | "ok" :: _ =>
+        if renewed.any (fun (w', tm) => w' != w && now < tm + lease) then nTakeover := nTakeover + 1
+        renewed := (w, now) :: renewed.filter (·.1 != w)
+      | ["busy"] => nBusy := nBusy + 1
+      | _ => pure ()
+      nSteps := nSteps + 1
+    | ["ext", w, res] =>
+      let w := w.toNat!
+      let (ls', d) := stepCmp (.extend w) (fun o => o == .extended (res == "ok")) ls
+      ls := ls'
+      if let some m := d then div := div ++ [m]
+      if res == "ok" then renewed := (w, now) :: renewed.filter (·.1 != w)
+      nExt := nExt + 1
+      nSteps := nSteps + 1
+    | ["tick", d] =>
+      ls := (Pithos.Outbox.step false ls (.tick d.toNat!)).1
+      now := now + d.toNat!
+      elapsed := elapsed + d.toNat!
+      -- did the schedule itself let a held lease run out?
+      if renewed.any (fun (_, tm) => now ≥ tm + lease) then lapsed := true
+    | ["replay", w, n, method, b, k, res] =>
+      let w := w.toNat!
+      let n := n.toNat!
+      let (ls', d) := if res == "err" then stepCmp (.innerFail w) (fun o => o == .unit) ls
+        else stepCmp (.innerWrite w) (fun o => o == .wrote) ls
+      ls := ls'
+      if let some m := d then div := div ++ [m]
+      match entryOps[n]? with
+      | none => div := div ++ [s!"line{idx}:replay-of-unknown-entry-{n}"]
+      | some e =>
+        let a := I.addr e
+        if methodOf e.op != method || a.1 != b || (if a.2 == "" then "~" else a.2) != k then
+          div := div ++ [s!"line{idx}:impl-replayed={method}/{b}/{k},entry-{n}-is={methodOf e.op}/{a.1}/{a.2}"]
+        let r := I.step inner e
+        if isErr r.2 != (res == "err") then div := div ++ [s!"line{idx}:replay-result:impl={res},model-err={isErr r.2}"]
+        inner := r.1
+      nReplay := nReplay + 1
+      nSteps := nSteps + 1
+    | ["fin", w, res] =>
+      let w := w.toNat!
+      let (ls', d) := stepCmp (.finalize w) (fun o => o == .finalized (res == "deleted")) ls
+      ls := ls'
+      if let some m := d then div := div ++ [m]
+      renewed := renewed.filter (·.1 != w)
+      nSteps := nSteps + 1
+    | ["rel", w, res] =>
+      let w := w.toNat!
+      let (ls', d) := stepCmp (.release w) (fun o => o == .released (res == "released")) ls
+      ls := ls'
+      if let some m := d then div := div ++ [m]
+      renewed := renewed.filter (·.1 != w)
+      nSteps := nSteps + 1
+    | ["dump"] =>
+      if !ls.queue.isEmpty then div := div ++ [s!"line{idx}:impl-drained,model-table-has-{ls.queue.length}-entries"]
+      dumping := true
+    | "unexpected" :: rest => div := div ++ [s!"line{idx}:harness-protocol:{String.intercalate " " rest}"]
+    | _ => div := div ++ [s!"line{idx}:unparsable:{l}"]
+    idx := idx + 1
+  return {
+    diverge := div.take 6, violations := vio.take 6,
+    nontrivial := nQueued ≥ 2 && nExt ≥ 2 && nReplay ≥ 2,
+    fingerprint := fpLines (lines.filter fun l => !(l.startsWith "res ")),
+    stats := [("lease_cases", 1), ("lease_steps", nSteps), ("lease_heartbeats", nExt), ("lease_claims_refused", nBusy),
+              ("lease_live_takeovers", nTakeover), ("lease_replays", nReplay), ("lease_clock_elapsed", elapsed),
+              ("lease_cases_with_lapsed_lease", if lapsed then 1 else 0), ("lease_dump_reads", nDump)],
+    samples := []
+  }
+
 def judgeCase (_k : Nat) (lines : List String) : Verdict := Id.run do
+  if (lines.head?.getD "").startsWith "cfg mode=lease" then return judgeLease lines
   let mut s : St S3.State COp := { inner := {}, queue := [] }
   let mut ctx : Ctx := {}
   let mut seq : S3.State := {}
